@@ -24,14 +24,19 @@ def register(path, handler):
 
 
 class _TextWriter(io.StringIO):
-    def __init__(self, handler, encoding):
+    def __init__(self, handler, encoding, errors=None):
         super().__init__()
-        self._h, self._enc, self._done = handler, encoding, False
+        self._h, self._enc, self._errors, self._done = handler, encoding, errors, False
 
     def close(self):
         if not self._done:
             self._done = True
-            self._h.write_bytes(self.getvalue().encode(self._enc))
+            try:
+                data = self.getvalue().encode(self._enc, self._errors or "strict")
+            finally:
+                super().close()
+            self._h.write_bytes(data)
+            return
         super().close()
 
 
@@ -62,7 +67,9 @@ def _open(file, mode="r", buffering=-1, encoding=None, errors=None, newline=None
         return _REAL_OPEN(file, mode, buffering, encoding, errors, newline, *a, **k)
     enc = encoding or "utf-8"
     if any(c in mode for c in "wax+"):
-        return _BytesWriter(h) if "b" in mode else _TextWriter(h, enc)
+        if "w" in mode and hasattr(h, "truncate"):
+            h.truncate()  # like the real open(): the old content is gone before anything is written
+        return _BytesWriter(h) if "b" in mode else _TextWriter(h, enc, errors)
     data = h.read_bytes()
     if "b" in mode:
         return io.BytesIO(data)
